@@ -147,6 +147,9 @@ func factsC34() {
 	emitStr("storeSyncIntervalDefault", ssrc+" flag --sync-block-duration default", flagDefault(sf, "sync-block-duration"))
 	emitList("storeFilterOrder", ssrc+" runStore: order of the deletion-mark and duplicate filters in the fetcher's filter list",
 		filterOrder(body(rs), "ignoreDeletionMarkFilter", "NewDeduplicateFilter"))
+	sb := fn(parse("pkg/store/bucket.go"), "BucketStore", "SyncBlocks")
+	emitList("storeSyncBlocksOrder", "pkg/store/bucket.go BucketStore.SyncBlocks: order of loading the new blocks of the view and dropping the loaded blocks that left it",
+		callSeq(body(sb), "addBlock", "removeBlock", "dropOutdatedBlocks"))
 	const fsrc = "pkg/block/fetcher.go"
 	ff := parse(fsrc)
 	fg := fn(ff, "DefaultDeduplicateFilter", "filterGroup")
